@@ -64,7 +64,8 @@ const (
 	// text; alternative: lexical error.
 	UnterminatedBlockComment
 	// ExoticWhitespace: FF, VT, NEL, NBSP, U+2028/9, BOM and other Unicode spaces between tokens.
-	// default: lexical error (not whitespace); alternative: whitespace.
+	// default: lexical error (not whitespace); alternative: whitespace — for all of them (Alt bit)
+	// or for the individual runes listed in Options.WS.
 	ExoticWhitespace
 	// ExtensionToken: '#' and '~>' are produced by the implementation's token enumeration but do
 	// not occur in grammar.ebnf. default: they are tokens; alternative: lexical error.
@@ -103,6 +104,9 @@ func (c Choice) Bits() []Choice {
 // Options selects, per choice, the alternative reading (bit set) or the default (bit clear).
 type Options struct {
 	Alt Choice
+	// WS lists exotic whitespace runes that are to be treated as whitespace individually
+	// (Alt&ExoticWhitespace treats all of them as whitespace).
+	WS string
 }
 
 // LexError describes why the token stream ends early.
@@ -127,6 +131,8 @@ type Result struct {
 	// Skipped[i] is true when rune i is whitespace or part of a comment (only meaningful up to
 	// the error position when Err != nil).
 	Skipped []bool
+	// ExoticAt is the exotic whitespace rune at which lexing stopped with an error (0 if none).
+	ExoticAt rune
 }
 
 // operator and punctuation terminals, with the kind names of the token enumeration
@@ -255,12 +261,13 @@ func Lex(text string, opt Options) Result {
 			continue
 		}
 		if IsExoticWhitespace(c) {
-			if l.alt(ExoticWhitespace) {
+			if l.alt(ExoticWhitespace) || strings.ContainsRune(opt.WS, c) {
 				res.Skipped[i] = true
 				i++
 				continue
 			}
 			res.Err = &LexError{Class: "illegal-character", At: l.pos[i], Where: l.pos[i]}
+			res.ExoticAt = c
 			break
 		}
 		// comments
